@@ -8,8 +8,8 @@
      in exact arithmetic the model panics (DivZero), in f64 it produces the NaN of bicg_no_breakdown_test.
      (The witness [[2,-1],[0,1]] x = (2,-2), x0 = 0 is an instance: A^T (2,-2) = 2 (2,-2).) *)
 From Coq Require Import List Arith Lia Bool Ring Field.
-From OV Require Import Base.Panic Base.Arith Model.Vector Model.Iter Proofs.Iter Proofs.IterField
-  Proofs.IterSparse Proofs.IterSparseBreakdown Proofs.IterCGVec.
+From OV Require Import Base.Panic Base.Arith Model.Vector Model.Matrix Model.Sparse Model.Iter Proofs.SparseBase Proofs.SparseMul
+  Proofs.Iter Proofs.IterField Proofs.IterSparse Proofs.IterSparseBreakdown Proofs.IterCGVec.
 Import ListNotations.
 
 Section StabField.
@@ -140,3 +140,112 @@ Proof.
 Qed.
 
 End BiCGField.
+
+(* ---------------------------------------------------------------- BiCGSTAB on a left eigenvector *)
+Section StabEigen.
+Context {A : SArith}.
+Notation F := (T (SA A)).
+Variable FL : FieldLaws (SA A).
+Add Field FFs : (fl_field (SA A) FL).
+Variables (n : nat) (mulA mulAT : list F -> res (list F)).
+Hypothesis LO : LinOp n mulA.
+Hypothesis ADJ : AdjOp n mulA mulAT.
+
+(* the mechanism of the open finding solve_bicgstab/breakdown: if the initial (= shadow) residual r0 is a left
+   eigenvector of A, then <r0, r1> = <r0, s> - omega <A^T r0, s> = 0 because alpha makes <r0, s> vanish:
+   whenever solve_bicgstab returns at all it returns from its FIRST step (Ok 1, or Err through `omega == 0`)
+   or from the first line of its second iteration through `rho_1 == 0` -- it never performs a second step *)
+Theorem bicgstab_left_eigenvector_breakdown (b x0 ax : list F) lam max tol res x g :
+  mulA x0 = Ok ax ->
+  let r0 := zipw sub b ax in
+  mulAT r0 = Ok (vscale r0 lam) -> 2 <= max ->
+  solve_bicgstab mulA n n b x0 max tol = Ok (res, x, g) ->
+  res = IOk 0 \/ res = IOk 1 \/ (exists e, res = IErr e /\ (g_exit g = 10 \/ g_exit g = 11)).
+Proof.
+  intros Eax r0 Eeig Hmax H.
+  unfold solve_bicgstab in H.
+  apply bind_ok in H as (u & Hg & H). apply guards_Ok in Hg as (Hb & _ & Hx).
+  rewrite Eax in H. cbn [bind] in H. apply bind_ok in H as (r0' & Er0 & H).
+  apply vsub_Ok in Er0 as (Hlb & ->). fold r0 in H.
+  assert (Hr0 : length r0 = n) by (unfold r0; rewrite zipw_length; lia).
+  apply bind_ok in H as (resid & Ed & H). cbv zeta in H.
+  destruct (leb resid tol).
+  { injection H as <- _ _. now left. }
+  destruct max as [|[|max]]; try lia. cbn [iloop] in H.
+  apply bind_ok in H as (out1 & Eb1 & H).
+  (* ---- the first iteration, statement by statement ---- *)
+  unfold stab_body in Eb1. cbn [st_x st_r st_p st_phat st_shat st_v st_rho2 st_alpha st_omega st_resid st_X] in Eb1.
+  apply bind_ok in Eb1 as (rho & Erho & Eb1). cbv beta in Eb1.
+  destruct (eqb rho zero).
+  { apply bind_ok in Eb1 as (e & _ & Eb1). injection Eb1 as <-. injection H as <- _ <-.
+    right. right. eexists. split; [reflexivity|]. now left. }
+  cbn [Nat.eqb bind] in Eb1.
+  rewrite ident_pre_ok in Eb1 by (auto; apply zeros_length). cbn [bind] in Eb1.
+  apply bind_ok in Eb1 as (v & Ev & Eb1). apply bind_ok in Eb1 as (rv & Erv & Eb1).
+  apply bind_ok in Eb1 as (alpha & Ea & Eb1). apply bind_ok in Eb1 as (sv & Esv & Eb1).
+  apply bind_ok in Eb1 as (resid1 & Ed1 & Eb1). cbv zeta in Eb1.
+  assert (Hv : length v = n) by (eapply mulA_len; eauto).
+  apply vsub_Ok in Esv as (_ & ->).
+  set (sv := zipw sub r0 (vscale v alpha)) in *.
+  assert (Hsv : length sv = n) by (unfold sv; rewrite zipw_length; auto; rewrite vscale_length; lia).
+  destruct (leb resid1 tol).
+  { apply bind_ok in Eb1 as (x1 & _ & Eb1). injection Eb1 as <-. injection H as <- _ _. right. now left. }
+  rewrite ident_pre_ok in Eb1 by (auto; apply zeros_length). cbn [bind] in Eb1.
+  apply bind_ok in Eb1 as (t & Et & Eb1). apply bind_ok in Eb1 as (ts & Ets & Eb1).
+  apply bind_ok in Eb1 as (tdt & Etdt & Eb1). apply bind_ok in Eb1 as (omega & Eo & Eb1).
+  apply bind_ok in Eb1 as (x1 & Ex1 & Eb1). apply bind_ok in Eb1 as (x2 & Ex2 & Eb1).
+  apply bind_ok in Eb1 as (r1 & Er1 & Eb1). apply bind_ok in Eb1 as (resid2 & Ed2 & Eb1). cbv zeta in Eb1.
+  assert (Ht : length t = n) by (eapply mulA_len; eauto).
+  apply vsub_Ok in Er1 as (_ & ->).
+  destruct (ltb resid2 tol).
+  { injection Eb1 as <-. injection H as <- _ _. right. now left. }
+  destruct (eqb omega zero).
+  { injection Eb1 as <-. injection H as <- _ <-. right. right. eexists. split; [reflexivity|]. now right. }
+  injection Eb1 as <-.
+  (* ---- the second iteration: <r0, r1> = 0 ---- *)
+  cbn [iloop] in H. apply bind_ok in H as (out2 & Eb2 & H).
+  unfold stab_body in Eb2. cbn [st_x st_r st_p st_phat st_shat st_v st_rho2 st_alpha st_omega st_resid st_X] in Eb2.
+  apply bind_ok in Eb2 as (rho2 & Erho2 & Eb2). cbv beta in Eb2.
+  assert (Hzero : rho2 = zero).
+  { unfold dot in Erho2. rewrite Hr0, zipw_length, Hsv, Nat.eqb_refl in Erho2 by (rewrite vscale_length; lia).
+    injection Erho2 as <-.
+    rewrite (dot_raw_sub_r FL) by (rewrite vscale_length; lia). rewrite (dot_raw_scale_r FL).
+    (* <r0, s> = 0 by the choice of alpha *)
+    unfold dot in Erho, Erv. rewrite Nat.eqb_refl in Erho. injection Erho as <-.
+    rewrite Hr0, Hv, Nat.eqb_refl in Erv. injection Erv as <-.
+    apply (div_Ok_inv FL) in Ea as (Hrvnz & ->).
+    assert (Hr0s : dot_raw r0 sv = zero).
+    { unfold sv. rewrite (dot_raw_sub_r FL) by (rewrite vscale_length; lia). rewrite (dot_raw_scale_r FL).
+      field. exact Hrvnz. }
+    (* <r0, A s> = <A^T r0, s> = lam <r0, s> *)
+    rewrite (ao_adj n mulA mulAT ADJ sv r0 t (vscale r0 lam) Hsv Hr0 Et Eeig).
+    rewrite (dot_raw_scale_l FL), Hr0s. ring. }
+  subst rho2. replace (eqb (@zero (SA A)) zero) with true in Eb2 by (symmetry; now apply (fl_eqb (SA A) FL)).
+  apply bind_ok in Eb2 as (e & _ & Eb2). injection Eb2 as <-. injection H as <- _ <-.
+  right. right. eexists. split; [reflexivity|]. now left.
+Qed.
+
+End StabEigen.
+
+(* the same for the implementation's own matrix type, any field *)
+Theorem bicgstab_left_eigenvector_breakdown_sparse {A : SArith} (FL : FieldLaws (SA A))
+    (s : sparse (SA A)) (b x0 : list (T (SA A))) lam max tol res x g :
+  wfS s ->
+  let r0 := zipw sub b (sp_apply s x0) in
+  sp_tapply s r0 = vscale r0 lam -> 2 <= max ->
+  run_sparse BiCGSTAB s b x0 max tol = Ok (res, x, g) ->
+  res = IOk 0 \/ res = IOk 1 \/ (exists e, res = IErr e /\ (g_exit g = 10 \/ g_exit g = 11)).
+Proof.
+  intros Hwf r0 Eeig Hmax H.
+  destruct (run_sparse_square BiCGSTAB s b x0 max tol _ H) as (Hsq & Hb & Hx).
+  pose proof (FL_RingLaws FL) as RL.
+  pose proof (sp_mul_LinOp RL s (sp_rows s) Hwf eq_refl (eq_sym Hsq)) as LO.
+  pose proof (sp_mul_AdjOp RL s (sp_rows s) Hwf eq_refl (eq_sym Hsq)) as ADJ.
+  assert (Eax : sp_mul s x0 = Ok (sp_apply s x0)) by (apply (sp_mul_spec_lemma RL); auto; lia).
+  assert (Hr0 : length r0 = sp_rows s).
+  { unfold r0. rewrite zipw_length; auto. unfold sp_apply. rewrite dmulv_length. exact Hb. }
+  assert (Eeig' : sp_tmul s r0 = Ok (vscale r0 lam)).
+  { rewrite <- Eeig. apply (sp_tmul_spec_lemma RL); auto. }
+  unfold run_sparse in H. cbn [run] in H. rewrite <- Hsq in H.
+  exact (bicgstab_left_eigenvector_breakdown FL (sp_rows s) (sp_mul s) (sp_tmul s) LO ADJ b x0 _ lam max tol res x g Eax Eeig' Hmax H).
+Qed.
